@@ -18,6 +18,11 @@
         outcome (`err:Io` at the refused call) and the bytes the writer holds
     ser write_fail <k> <path> <tree>      `Xot::write` into the same writer
 
+    ser xml_write_bytes <n> <cdata> <gt> <indent> <decl> <doctype> <path> <tree>
+        `serialize_xml_write` into `ByteBudgetWriter { remaining: n }` (`serializeXmlWriteB (byteBudget n)`):
+        outcome and the BYTES the writer holds (`b:` + dot-separated hex bytes; may end inside a character)
+    ser write_bytes <n> <path> <tree>     `Xot::write` into the same writer
+
   <cdata>, <suppress> : `-` or comma-separated name ids;  <gt> : 0 | 1
   <indent>  : `-` (no indentation) | `i` (empty suppress list) | `i<ids>`
   <decl>    : `-` | `d/<enc>/<standalone>` with <enc> = `-` | string, <standalone> = `-` | `y` | `n`
@@ -26,6 +31,7 @@
   `/tx/<str>`, `/cm/<str>`, `/pi/<target>/<str|->`.
 -/
 import XotModel.Model.Normalizer
+import XotModel.Model.WriterBytes
 import XotModel.Driver.Tree
 
 namespace XotModel.Driver
@@ -97,6 +103,13 @@ def parseTreeAt (path : String) (toks : List String) : Option (Tree × Path) := 
 def showWritten (env : Env) (r : Str × Outcome XotError Unit) : String :=
   showOutcome env (fun _ => "ok") r.2 ++ " " ++ encStr r.1
 
+/-- Bytes on the wire: `b:` + dot-separated hex bytes (`b:` = none). -/
+def encBytes (b : List UInt8) : String :=
+  "b:" ++ String.intercalate "." (b.map (fun x => toHex x.toNat))
+
+def showWrittenBytes (env : Env) (r : List UInt8 × Outcome XotError Unit) : String :=
+  showOutcome env (fun _ => "ok") r.2 ++ " " ++ encBytes r.1
+
 def handleSer (st : DState) : List String → Option String
   | "outputs" :: path :: toks => do
       let (t, p) ← parseTreeAt path toks
@@ -147,6 +160,16 @@ def handleSer (st : DState) : List String → Option String
       let k ← k.toNat?
       let (t, p) ← parseTreeAt path toks
       some (showWritten st.env (serializeWriteW (.budget (some k)) xmlEscapers st.env {} t p))
+  | "xml_write_bytes" :: n :: cd :: gt :: ind :: decl :: dt :: path :: toks => do
+      let n ← n.toNat?
+      let pr : XmlParams := ⟨← parseIndent ind, ← parseNatList cd, ← parseDecl decl, ← parseDoctype dt,
+        ← parseBool01 gt⟩
+      let (t, p) ← parseTreeAt path toks
+      some (showWrittenBytes st.env (serializeXmlWriteB (.byteBudget n) xmlEscapers st.env pr t p))
+  | "write_bytes" :: n :: path :: toks => do
+      let n ← n.toNat?
+      let (t, p) ← parseTreeAt path toks
+      some (showWrittenBytes st.env (serializeWriteB (.byteBudget n) xmlEscapers st.env t p))
   | "xml_write" :: cd :: gt :: ind :: decl :: dt :: path :: toks => do
       let pr : XmlParams := ⟨← parseIndent ind, ← parseNatList cd, ← parseDecl decl, ← parseDoctype dt,
         ← parseBool01 gt⟩
